@@ -88,6 +88,26 @@ func buildProperty(ww *conversionVisitor, node *sourcewalk.PropertyNode) (*descr
 			Options:  &descriptorpb.FieldOptions{},
 		}
 
+		// As for arrays: the rules of the map itself, and the validation
+		// of the values where readers expect it.
+		valueValidate, _ := proto.GetExtension(itemDesc.Options, validate.E_Field).(*validate.FieldConstraints)
+		if valueValidate != nil || st.Map.Rules != nil {
+			mapRules := &validate.MapRules{}
+			if valueValidate != nil {
+				mapRules.Values = valueValidate
+			}
+			if st.Map.Rules != nil {
+				mapRules.MinPairs = st.Map.Rules.MinPairs
+				mapRules.MaxPairs = st.Map.Rules.MaxPairs
+			}
+			proto.SetExtension(fieldDesc.Options, validate.E_Field, &validate.FieldConstraints{
+				Type: &validate.FieldConstraints_Map{
+					Map: mapRules,
+				},
+			})
+			ww.file.ensureImport(bufValidateImport)
+		}
+
 	case *schema_j5pb.Field_Array:
 		if st.Array.Items == nil {
 			return nil, errors.New("missing array items")
